@@ -1,6 +1,7 @@
 from typing import Coroutine, Any, TypeVar, Awaitable, AsyncIterator, Optional, List
 
 from .._primitives.context import Scope
+from .._primitives.notification import postpone
 from .._basics.streams import Queue
 
 import asyncstdlib as a
@@ -48,7 +49,18 @@ async def first(
                 volatile=True,
             )
         async for winner in a.islice(results, count):
+            # While the consumer works on a result, control is in *its* code: a failure
+            # of an activity must not interrupt that, but is reported by the scope
+            # once the consumer comes back for the next result.
+            if scope._child_failures:
+                # an activity has failed in this very time step and the scope is
+                # about to tell us: receive that here and not in the consumer's code
+                await postpone()
+            scope._interruptable = False
             yield winner
+            scope._interruptable = True
+            if scope._child_failures:
+                scope.__cancel__()
 
 
 async def collect(*activities: Coroutine[Any, Any, RT]) -> List[RT]:
